@@ -238,7 +238,9 @@ def snapshot(mesh):
     def arr(a):
         a = np.asarray(a)
         return (a.dtype.str, a.shape, a.tobytes())
-    snap = {"p": arr(mesh.doflocs), "t": arr(mesh.t), "cls": type(mesh).__name__}
+    # element_dofs is derived and cached on the mesh, but it is what the exporters write as connectivity
+    snap = {"p": arr(mesh.doflocs), "t": arr(mesh.t), "cls": type(mesh).__name__,
+            "element_dofs": arr(mesh.dofs.element_dofs)}
     for nm, d in (("s", mesh.subdomains), ("b", mesh.boundaries)):
         if d is None:
             snap[nm] = None
